@@ -1,6 +1,6 @@
 (* C15 — property theorems. Nothing but statements closed by [exact]. *)
 From Coq Require Import String ZArith List Bool Reals.
-From XV Require Import Base.Scalar Base.RInst Model.DecompLib Gen.T3 Gen.T8 Proofs.C15_proofs Proofs.C15_opts.
+From XV Require Import Base.Scalar Base.RInst Model.DecompLib Gen.T3 Gen.T8 Gen.T8fwd Proofs.C15_proofs Proofs.C15_opts Proofs.Fwd_tie.
 Import ListNotations.
 Open Scope R_scope.
 
@@ -102,3 +102,24 @@ Theorem C15_solver_options_in_source :
    ("default", "compute", "False"); ("default", "n_power_iter", "4")]%string.
 Proof. exact solver_options_known. Qed.
 Print Assumptions C15_solver_options_in_source.
+
+(* the constructors of the two decomposition front-ends, statement by statement: n_modes reaches the test "count or fraction" as the
+   user gave it and is stored unchanged (regenerated from the source) *)
+Theorem C15_constructors_in_source :
+  dec_init_statements =
+  ["sanity_check_n_modes(n_modes)"; "self.is_based_on_variance = False if isinstance(n_modes, int) else True"; "if self.is_based_on_variance:";
+   "self.n_modes = n_modes"; "self.n_modes_precompute = n_modes"; "self.init_rank_reduction = init_rank_reduction"; "self.flip_signs = flip_signs";
+   "self.compute = compute"; "self.solver = solver"; "self.random_state = random_state"; "self.component_dim_name = component_dim_name";
+   "self.solver_kwargs = solver_kwargs"]%string /\
+  svd_init_statements =
+  ["sanity_check_n_modes(n_modes)"; "self.is_based_on_variance = True if isinstance(n_modes, float) else False"; "if self.is_based_on_variance:";
+   "self.n_modes = n_modes"; "self.n_modes_precompute = n_modes"; "self.init_rank_reduction = init_rank_reduction"; "self.flip_signs = flip_signs";
+   "self.solver = solver"; "self.random_state = random_state"; "self.solver_kwargs = solver_kwargs"; "self.is_complex = is_complex"]%string.
+Proof. exact init_statements_known. Qed.
+Print Assumptions C15_constructors_in_source.
+
+(* every model class hands its constructor parameters on under their own names (solver, random_state, solver_kwargs among them): none is
+   dropped or replaced, apart from the pinned whitening degrees of the named methods *)
+Theorem C15_constructor_parameters_reach_the_parent : forallb (fun r => how_ok (snd r)) ctor_special = true.
+Proof. exact ctor_nothing_dropped_or_replaced. Qed.
+Print Assumptions C15_constructor_parameters_reach_the_parent.
